@@ -9,6 +9,10 @@ fn opt_hex(v: Option<Vec<u8>>) -> String {
     }
 }
 
+pub fn fbits(s: &str) -> f64 {
+    f64::from_bits(s.parse::<u64>().unwrap())
+}
+
 fn fmt_res<E: std::fmt::Debug>(r: Result<Vec<u8>, E>) -> String {
     match r {
         Ok(b) => format!("Ok {}", hex(&b)),
@@ -79,6 +83,16 @@ pub fn exec(tok: &[&str]) -> String {
                 }
                 _ => panic!("bad-op"),
             }
+        }
+        // ---- integer Gaussian sampler (C09) ---------------------------------------------------------
+        "base_sampler" => vh::base_sampler(unhex(tok[1]).try_into().unwrap()).to_string(),
+        "approx_exp" => vh::approx_exp(fbits(tok[1]), fbits(tok[2])).to_string(),
+        "ber_exp" => vh::ber_exp(fbits(tok[1]), fbits(tok[2]), unhex(tok[3]).try_into().unwrap()).to_string(),
+        "sampler_z" => {
+            let mut rng = StreamRng::new(unhex(tok[4]));
+            rng.panic_on_exhaust = true;
+            let z = vh::sampler_z(fbits(tok[1]), fbits(tok[2]), fbits(tok[3]), &mut rng);
+            format!("{z} {}", rng.pos)
         }
         // ---- hash to point (C14) -------------------------------------------------------------------
         "hash_to_point" => ints(&vh::hash_to_point(&unhex(tok[2]), tok[1].parse().unwrap())),
